@@ -544,6 +544,34 @@ Proof.
   - cbn in H. inversion H; subst. split; [reflexivity|]. right; right; right. exists s. reflexivity.
 Qed.
 
+Lemma other_cases_exact : forall pa bufsize m c x log,
+  cstep_g pa bufsize m c = Ok (x, log) ->
+  match c with
+  | CTx _ _ | CRx _ _ => True
+  | CTo _ => log = [] /\ fst x = m /\ snd x = OUnit
+  | CTake => log = [] /\ fst x = set_events m events_default /\ snd x = OEvents (dm_events m)
+  | CReqDiag _ | CWriteQ _ _ => log = [] /\ user_upd m (fst x) /\ snd x = OUnit
+  | CEnter s => log = [] /\ fst x = dp_enter_state_unwound m s /\ snd x = OUnit
+  end.
+Proof.
+  intros pa bufsize m c x log H. destruct c as [now hp|a t|a| |h|h q|s]; try exact I; cbn [cstep_g cstep] in H.
+  - cbn in H. inversion H; subst. repeat split; reflexivity.
+  - cbn in H. inversion H; subst. repeat split; reflexivity.
+  - unfold dp_request_diagnostics, dp_update in H.
+    destruct (dp_get_mut m h) as [p| |] eqn:Hg; cbn [bind] in H; try discriminate H.
+    inversion H; subst. split; [reflexivity|]. split; [|reflexivity].
+    exists (hd_index h), p, (p_request_diagnostics p). split; [apply dp_get_mut_slot; exact Hg|].
+    split; [reflexivity|]. unfold same_ctrl. cbn. repeat split; reflexivity.
+  - unfold dp_write_q in H.
+    destruct (dp_get_mut m h) as [p| |] eqn:Hg; cbn [bind] in H; try discriminate H.
+    unfold copy_from_slice in H. destruct (Nat.eqb (length (pe_pi_q p)) (length q)) eqn:Hl; cbn [bind] in H; try discriminate H.
+    inversion H; subst. split; [reflexivity|]. split; [|reflexivity].
+    exists (hd_index h), p, (set_pi_q p q). split; [apply dp_get_mut_slot; exact Hg|].
+    split; [reflexivity|]. unfold same_ctrl. cbn. repeat split; try reflexivity.
+    symmetry. apply Nat.eqb_eq. exact Hl.
+  - cbn in H. inversion H; subst. repeat split; reflexivity.
+Qed.
+
 Lemma user_upd_mask : forall m m1, user_upd m m1 -> mask m1 = mask m /\ dm_cycle m1 = dm_cycle m /\
   dm_events m1 = dm_events m /\ dm_op m1 = dm_op m /\ dm_last_gc m1 = dm_last_gc m.
 Proof.
@@ -1384,4 +1412,420 @@ Definition fresh (p : periph) : Prop := pe_state p = PsOffline /\ pe_retry p = 0
 Lemma fresh_life_inv : forall m, (forall i p, slot m i = Some p -> fresh p) -> life_inv m (fun _ => LOff).
 Proof.
   intros m H i p Hs. destruct (H _ _ Hs) as (Hst & Hr & _). split; [rewrite Hst; reflexivity|]. intros _. lia.
+Qed.
+
+(* ------------------------------------------------------------------ C14_gc_interleaving *)
+
+(* the slot loop leaves operating state and global control time alone *)
+Lemma tx_rel_frame : forall pa bufsize m m' o log,
+  tx_rel pa bufsize m m' o log -> dm_op m' = dm_op m /\ dm_last_gc m' = dm_last_gc m /\ dm_owned m' = dm_owned m.
+Proof.
+  intros pa bufsize m m' o log H. induction H as
+    [m Hc|m index Hc Hg|m index hd p p1 h pdu o Hc Hg Hp Hs|m index hd p p1 ev m2 Hc Hg Hp Hi
+    |m index hd p p1 e m2 Hc Hg Hp Hi|m index hd p p1 m2 m' o log Hc Hg Hp Hi Hrel IH];
+    try (repeat split; reflexivity).
+  - unfold increment_cycle, bind in Hi. destruct (get_next_index _ _) as [[n|]| |]; inversion Hi; subst.
+    repeat split; reflexivity.
+  - unfold increment_cycle, bind in Hi. destruct (get_next_index _ _) as [[n|]| |]; inversion Hi; subst.
+    repeat split; reflexivity.
+  - unfold increment_cycle, bind in Hi. destruct (get_next_index _ _) as [[n|]| |]; inversion Hi; subst.
+    destruct IH as (-> & -> & ->). repeat split; reflexivity.
+Qed.
+
+Lemma gc_due_spec : forall pa m now,
+  gc_due pa m now = Ok true ->
+  match dm_last_gc m with
+  | None => True
+  | Some t0 => slot_time pa * dp_gc_interval_slots <= Z.abs (now - t0)
+  end.
+Proof.
+  intros pa m now H. unfold gc_due in H. destruct (dm_last_gc m) as [t0|]; [|exact I].
+  unfold instant_diff, bind in H. destruct (_ || _); [discriminate H|].
+  inversion H as [H1]. apply Z.leb_le in H1. exact H1.
+Qed.
+
+(* a global control broadcast: only in a transmit call with HighPrioOnly::No of a master that is not
+   stopped, when due; it is an SDN request (expects no reply, so nothing will be routed back), the cycle
+   position and all peripherals are untouched, the event slot is emptied *)
+Lemma gc_broadcast : forall pa bufsize m now hp m' o log,
+  dp_transmit_g pa bufsize m now hp = Ok (m', o, log) ->
+  existsb is_gc log = true ->
+  log = [GGc] /\ hp = false /\ dm_op m <> OpStop /\ gc_due pa m now = Ok true /\
+  (exists b w, (b = dp_gc_clear /\ dm_op m = OpClear \/ b = dp_gc_operate /\ dm_op m = OpOperate) /\
+               send_data bufsize (gc_header pa) [b; dp_gc_groups] = Ok (w, None) /\ o = Some (w, None)) /\
+  dm_cycle m' = dm_cycle m /\ dm_slots m' = dm_slots m /\ pos_rem m' = pos_rem m /\
+  dm_events m' = events_default /\ dm_last_gc m' = Some now /\ dm_op m' = dm_op m.
+Proof.
+  intros pa bufsize m now hp m' o log H Hgc.
+  destruct (dp_transmit_g_cases _ _ _ _ _ _ _ _ H) as
+    [(_ & _ & _ & ->)|[(Hop & Hhp & Hd & Hm & -> & Hb)|(_ & _ & Hrel)]].
+  - discriminate Hgc.
+  - subst m'. repeat split; try assumption; try reflexivity.
+  - rewrite (tx_rel_no_gc _ _ _ _ _ _ Hrel) in Hgc. discriminate Hgc.
+Qed.
+
+(* ... and whenever one is due it is sent, whatever the cycle position *)
+Lemma gc_when_due : forall pa bufsize m now,
+  dm_op m <> OpStop -> gc_due pa m now = Ok true ->
+  match dp_transmit_g pa bufsize m now false with
+  | Ok (_, _, log) => log = [GGc]
+  | Panic _ => True
+  | OutOfFuel => False
+  end.
+Proof.
+  intros pa bufsize m now Hop Hd. unfold dp_transmit_g.
+  destruct (opstate_eqb (dm_op m) OpStop) eqn:E; [apply opstate_eqb_true in E; now elim Hop|].
+  rewrite Hd. cbn [bind]. destruct (dm_op m); cbn [bind]; try exact I;
+    destruct (send_data _ _ _) as [o1| |] eqn:Hs; cbn [bind]; auto; exact (nf_send_data _ _ _ Hs).
+Qed.
+
+(* at most one broadcast per interval: monitor state = time of the last broadcast since the last
+   enter_state *)
+Definition gc_item (pa : params) (last : option Z) (it : item) : option (option Z) :=
+  match it_cb it with
+  | CEnter _ => Some None
+  | CTx now _ =>
+      if existsb is_gc (it_log it) then
+        match last with
+        | Some t0 => if slot_time pa * dp_gc_interval_slots <=? Z.abs (now - t0) then Some (Some now) else None
+        | None => Some (Some now)
+        end
+      else Some last
+  | _ => Some last
+  end.
+
+Definition gc_inv (m : dpm) (last : option Z) : Prop := dm_last_gc m = last.
+
+Lemma gc_inv_take : forall auto c m last, gc_inv m last -> gc_inv (fst (auto_take_m auto c m)) last.
+Proof. intros auto c m last H. unfold auto_take_m. destruct (auto && is_bus c); exact H. Qed.
+
+Lemma gc_step : forall auto pa bufsize m last c x log,
+  gc_inv m last -> cstep_g pa bufsize m c = Ok (x, log) ->
+  exists last', gc_item pa last (mk_item auto m c x log) = Some last' /\
+                gc_inv (it_m (mk_item auto m c x log)) last'.
+Proof.
+  intros auto pa bufsize m last c x log HI H. unfold gc_item, mk_item. cbn [it_cb it_log it_m].
+  destruct c as [now hp|a t|a| |h|h q|s].
+  - destruct (cstep_tx _ _ _ _ _ _ _ H) as (o & _ & Hg).
+    destruct (dp_transmit_g_cases _ _ _ _ _ _ _ _ Hg) as
+      [(_ & Hm & _ & ->)|[(_ & _ & Hd & Hm & -> & _)|(_ & _ & Hrel)]].
+    + exists last. split; [reflexivity|]. apply gc_inv_take. rewrite Hm. exact HI.
+    + cbn [existsb is_gc orb]. pose proof (gc_due_spec _ _ _ Hd) as Hs. unfold gc_inv in HI. rewrite HI in Hs.
+      exists (Some now). split.
+      * destruct last as [t0|]; [|reflexivity]. apply Z.leb_le in Hs. rewrite Hs. reflexivity.
+      * apply gc_inv_take. rewrite Hm. reflexivity.
+    + rewrite (tx_rel_no_gc _ _ _ _ _ _ Hrel). exists last. split; [reflexivity|]. apply gc_inv_take.
+      destruct (tx_rel_frame _ _ _ _ _ _ Hrel) as (_ & Hl & _). unfold gc_inv. rewrite Hl. exact HI.
+  - destruct (cstep_rx _ _ _ _ _ _ _ H) as (_ & Hg).
+    destruct (rx_cases _ _ _ _ _ Hg) as (index & hd & p & p1 & ev & m2 & cc & Hc & Hgi & _ & _ & Hi & Hm & ->).
+    exists last. split; [reflexivity|]. apply gc_inv_take. rewrite Hm.
+    unfold increment_cycle, bind in Hi. destruct (get_next_index _ _) as [[n|]| |]; inversion Hi; subst; exact HI.
+  - cbn in H. inversion H; subst. exists last. split; [reflexivity|]. apply gc_inv_take. exact HI.
+  - cbn in H. inversion H; subst. exists last. split; [reflexivity|]. apply gc_inv_take. exact HI.
+  - destruct (other_cases_exact _ _ _ _ _ _ H) as (-> & Hu & _).
+    exists last. split; [reflexivity|]. apply gc_inv_take.
+    destruct (user_upd_mask _ _ Hu) as (_ & _ & _ & _ & Hl). unfold gc_inv. rewrite Hl. exact HI.
+  - destruct (other_cases_exact _ _ _ _ _ _ H) as (-> & Hu & _).
+    exists last. split; [reflexivity|]. apply gc_inv_take.
+    destruct (user_upd_mask _ _ Hu) as (_ & _ & _ & _ & Hl). unfold gc_inv. rewrite Hl. exact HI.
+  - destruct (other_cases_exact _ _ _ _ _ _ H) as (-> & Hx & _).
+    exists None. split; [reflexivity|]. apply gc_inv_take. rewrite Hx. reflexivity.
+Qed.
+
+Theorem gc_interval_history : forall auto pa bufsize m0 cbs tr,
+  run_g auto pa bufsize m0 cbs = Ok tr ->
+  accepts (option Z) gc_inv (gc_item pa) (dm_last_gc m0) m0 tr.
+Proof.
+  intros auto pa bufsize m0 cbs tr H.
+  eapply (lift auto pa bufsize); [|reflexivity|exact H].
+  intros m s c x log HI Hc. eapply gc_step; eassumption.
+Qed.
+
+(* ------------------------------------------------------------------ C14_zero_peripherals *)
+
+Lemma find_none_of_occ : forall l j j', occupied_from l j = [] -> find_occupied l j' = None.
+Proof.
+  induction l as [|x l IH]; intros j j' H; [reflexivity|].
+  destruct x as [q|]; cbn in H |- *; [discriminate H|]. eapply IH. exact H.
+Qed.
+
+Lemma empty_get_at_index : forall m i, occupied m = [] -> get_at_index (dm_slots m) i = Ok None.
+Proof.
+  intros m i H. unfold get_at_index. unfold occupied in H.
+  pose proof (occ_skip_nil i _ _ H) as H0. rewrite (find_none_of_occ _ _ i H0). reflexivity.
+Qed.
+
+(* an empty master (no slot occupied; in particular no slots at all): transmit_telegram returns None at
+   once, having reported cycle_completed -- unless it is stopped or a global control broadcast is due *)
+Lemma zero_peripherals_tx : forall pa bufsize m now hp index,
+  occupied m = [] -> dm_cycle m = CyDataExchange index -> dm_op m <> OpStop ->
+  (hp = true \/ gc_due pa m now = Ok false) ->
+  dp_transmit pa bufsize m now hp =
+    Ok (set_events (set_cycle m (CyDataExchange 0)) (mkEvents true None), None).
+Proof.
+  intros pa bufsize m now hp index Hocc Hc Hop Hgc. unfold dp_transmit.
+  destruct (opstate_eqb (dm_op m) OpStop) eqn:E; [apply opstate_eqb_true in E; now elim Hop|].
+  assert (Hd : (if hp then Ok false else gc_due pa m now) = Ok false).
+  { destruct Hgc as [->|Hg]; [reflexivity|]. destruct hp; [reflexivity|exact Hg]. }
+  rewrite Hd. cbn [bind]. unfold dp_tx_fuel. rewrite Nat.add_comm. cbn [Nat.add dp_tx_loop].
+  rewrite Hc. rewrite (empty_get_at_index _ _ Hocc). reflexivity.
+Qed.
+
+Definition empty_inv (m : dpm) : Prop := occupied m = [] /\ dm_cycle m <> CyCompleted.
+
+(* in a history of an empty master every transmit call returns None (reporting cycle_completed unless
+   stopped) or writes a global control broadcast; a reply is never processed *)
+Definition empty_item (it : item) : Prop :=
+  match it_cb it with
+  | CTx _ _ =>
+      (it_out it = OTx None /\ it_log it = [] /\
+       (dm_op (it_pre it) = OpStop /\ reported it = events_default \/
+        dm_op (it_pre it) <> OpStop /\ reported it = mkEvents true None)) \/
+      (exists w, it_out it = OTx (Some (w, None)) /\ it_log it = [GGc] /\ reported it = events_default)
+  | CRx _ _ => False
+  | _ => True
+  end.
+
+Lemma tx_rel_empty : forall pa bufsize m m' o log,
+  empty_inv m -> tx_rel pa bufsize m m' o log ->
+  m' = set_events (set_cycle m (CyDataExchange 0)) (mkEvents true None) /\ o = None /\ log = [].
+Proof.
+  intros pa bufsize m m' o log [Hocc Hnc] H.
+  assert (Hno : forall index hd p, dm_cycle m = CyDataExchange index ->
+                  get_at_index (dm_slots m) index = Ok (Some (hd, p)) -> False).
+  { intros index hd p Hc Hg. rewrite (empty_get_at_index _ _ Hocc) in Hg. discriminate Hg. }
+  inversion H; subst; try (exfalso; eapply Hno; eassumption).
+  - now elim Hnc.
+  - repeat split; reflexivity.
+Qed.
+
+Lemma empty_inv_take : forall auto c m, empty_inv m -> empty_inv (fst (auto_take_m auto c m)).
+Proof. intros auto c m H. unfold auto_take_m. destruct (auto && is_bus c); exact H. Qed.
+
+Lemma empty_step : forall auto pa bufsize m c x log,
+  empty_inv m -> cstep_g pa bufsize m c = Ok (x, log) ->
+  empty_item (mk_item auto m c x log) /\ empty_inv (it_m (mk_item auto m c x log)).
+Proof.
+  intros auto pa bufsize m c x log HI H. unfold empty_item, reported, mk_item.
+  cbn [it_cb it_out it_log it_pre it_post it_m].
+  destruct c as [now hp|a t|a| |h|h q|s].
+  - destruct (cstep_tx _ _ _ _ _ _ _ H) as (o & Ho & Hg). rewrite Ho.
+    destruct (dp_transmit_g_cases _ _ _ _ _ _ _ _ Hg) as
+      [(Hop & Hm & -> & ->)|[(Hop & _ & _ & Hm & -> & b & w & _ & _ & ->)|(Hop & _ & Hrel)]].
+    + split; [|apply empty_inv_take; rewrite Hm; exact HI].
+      left. split; [reflexivity|]. split; [reflexivity|]. left. split; [exact Hop|rewrite Hm; reflexivity].
+    + split; [|apply empty_inv_take; rewrite Hm; exact HI].
+      right. exists w. split; [reflexivity|]. split; [reflexivity|]. rewrite Hm. reflexivity.
+    + destruct (tx_rel_empty _ _ _ _ _ _ HI Hrel) as (Hm & -> & ->).
+      split; [|apply empty_inv_take; rewrite Hm; destruct HI as [Ho' _]; split; [exact Ho'|discriminate]].
+      left. split; [reflexivity|]. split; [reflexivity|]. right. split; [exact Hop|rewrite Hm; reflexivity].
+  - exfalso. destruct (cstep_rx _ _ _ _ _ _ _ H) as (_ & Hg).
+    destruct (rx_cases _ _ _ _ _ Hg) as (index & hd & p & p1 & ev & m2 & cc & Hc & Hgi & _).
+    destruct HI as [Hocc _]. rewrite (empty_get_at_index _ _ Hocc) in Hgi. discriminate Hgi.
+  - destruct (other_cases_exact _ _ _ _ _ _ H) as (_ & -> & _). split; [exact I|apply empty_inv_take; exact HI].
+  - destruct (other_cases_exact _ _ _ _ _ _ H) as (_ & -> & _). split; [exact I|apply empty_inv_take; exact HI].
+  - destruct (other_cases_exact _ _ _ _ _ _ H) as (_ & Hu & _). split; [exact I|]. apply empty_inv_take.
+    destruct (user_upd_mask _ _ Hu) as (Hmk & Hcy & _). destruct HI as [Ho' Hn].
+    split; [rewrite <- Ho'; apply occupied_of_mask; exact Hmk|rewrite Hcy; exact Hn].
+  - destruct (other_cases_exact _ _ _ _ _ _ H) as (_ & Hu & _). split; [exact I|]. apply empty_inv_take.
+    destruct (user_upd_mask _ _ Hu) as (Hmk & Hcy & _). destruct HI as [Ho' Hn].
+    split; [rewrite <- Ho'; apply occupied_of_mask; exact Hmk|rewrite Hcy; exact Hn].
+  - destruct (other_cases_exact _ _ _ _ _ _ H) as (_ & -> & _). split; [exact I|apply empty_inv_take; exact HI].
+Qed.
+
+Theorem zero_peripherals_history : forall auto pa bufsize m0 cbs tr,
+  occupied m0 = [] -> dm_cycle m0 <> CyCompleted ->
+  run_g auto pa bufsize m0 cbs = Ok tr -> Forall empty_item tr.
+Proof.
+  intros auto pa bufsize m0 cbs tr Ho Hc H.
+  destruct (liftP auto pa bufsize empty_inv empty_item (empty_step auto pa bufsize) cbs m0 tr (conj Ho Hc) H)
+    as [HF _]. exact HF.
+Qed.
+
+(* ------------------------------------------------------------------ a turn = one request plus its retransmissions *)
+
+(* monitor state: number of transmissions in the turn in progress and the frame count bit they carried.
+   Every transmission of a turn carries the same frame count bit as the one before (for the FDL peer: a
+   repetition of the same request) and there are at most 1 + max_retry of them. *)
+Definition sends_entry (maxr : Z) (s : nat * option fcbit) (e : gent) : option (nat * option fcbit) :=
+  match e with
+  | GSend _ _ _ h _ =>
+      match req_fcbit h with
+      | Some f =>
+          if (Z.of_nat (fst s) <=? maxr) &&
+             (match snd s with Some f0 => fcbit_eqb f0 f | None => true end)
+          then Some (S (fst s), Some f) else None
+      | None => None
+      end
+  | GSkip _ _ _ _ | GReply _ _ _ _ _ => Some (0%nat, None)
+  | GGc => Some s
+  end.
+
+Fixpoint sends_entries (maxr : Z) (s : nat * option fcbit) (log : list gent) : option (nat * option fcbit) :=
+  match log with
+  | [] => Some s
+  | e :: r => match sends_entry maxr s e with Some s' => sends_entries maxr s' r | None => None end
+  end.
+
+Definition sends_item (maxr : Z) (s : nat * option fcbit) (it : item) : option (nat * option fcbit) :=
+  sends_entries maxr s (it_log it).
+
+Definition sends_inv (m : dpm) (s : nat * option fcbit) : Prop :=
+  (forall i p, slot m i = Some p -> 0 <= pe_retry p) /\
+  (forall i r p, pos_rem m = i :: r -> slot m i = Some p ->
+     Z.of_nat (fst s) <= pe_retry p /\ (forall f, snd s = Some f -> pe_fcb p = f)) /\
+  (pos_rem m = [] -> s = (0%nat, None)).
+
+Lemma fcbit_eqb_refl : forall f, fcbit_eqb f f = true.
+Proof. destruct f; reflexivity. Qed.
+
+Lemma sends_inv_reset : forall m, (forall i p, slot m i = Some p -> 0 <= pe_retry p) -> sends_inv m (0%nat, None).
+Proof.
+  intros m H. split; [exact H|]. split; [|reflexivity].
+  intros i r p _ Hs. split; [cbn; apply (H _ _ Hs)|]. intros f Hf. discriminate Hf.
+Qed.
+
+Lemma retry_nonneg_put : forall m i p p1,
+  (forall j q, slot m j = Some q -> 0 <= pe_retry q) -> slot m i = Some p -> 0 <= pe_retry p1 ->
+  forall j q, slot (set_slots m (put_slot (dm_slots m) i p1)) j = Some q -> 0 <= pe_retry q.
+Proof.
+  intros m i p p1 H Hs Hp j q Hq. destruct (Nat.eq_dec i j) as [->|Hne].
+  - rewrite (slot_put_same _ _ p1 _ Hs) in Hq. inversion Hq; subst. exact Hp.
+  - rewrite slot_put_other in Hq by exact Hne. eapply H; exact Hq.
+Qed.
+
+Lemma retry_nonneg_slots : forall m m',
+  dm_slots m' = dm_slots m -> (forall j q, slot m j = Some q -> 0 <= pe_retry q) ->
+  forall j q, slot m' j = Some q -> 0 <= pe_retry q.
+Proof. intros m m' H HI j q Hq. apply (HI j). unfold slot in *. rewrite <- H. exact Hq. Qed.
+
+Lemma tx_rel_sends : forall pa bufsize m m' o log,
+  tx_rel pa bufsize m m' o log -> forall s, sends_inv m s ->
+  exists s', sends_entries (p_max_retry pa) s log = Some s' /\ sends_inv m' s'.
+Proof.
+  intros pa bufsize m m' o log H. induction H as
+    [m Hc|m index Hc Hg|m index hd p p1 h pdu o Hc Hg Hp Hs|m index hd p p1 ev m2 Hc Hg Hp Hi
+    |m index hd p p1 e m2 Hc Hg Hp Hi|m index hd p p1 m2 m' o log Hc Hg Hp Hi Hrel IH];
+    intros s (Hnn & Hhead & Hnil).
+  - exists s. split; [reflexivity|]. split; [exact Hnn|]. split.
+    + intros i r p Hpr Hs. apply (Hhead i r p); [|exact Hs].
+      unfold pos_rem in *. cbn in Hpr. rewrite Hc. exact Hpr.
+    + intro Hpr. apply Hnil. unfold pos_rem in *. cbn in Hpr. rewrite Hc. exact Hpr.
+  - exists s. split; [reflexivity|].
+    assert (Hs0 : s = (0%nat, None)).
+    { apply Hnil. unfold pos_rem. rewrite Hc. apply get_at_index_none. exact Hg. }
+    subst s. apply sends_inv_reset. exact Hnn.
+  - destruct (cur_slot _ _ _ _ Hc Hg) as (r & Hr & Hsl & _).
+    destruct (Hhead _ _ _ Hr Hsl) as (Hn & Hf).
+    pose proof (transmit_spec _ _ _ _ _ Hp) as Hts. cbn beta iota in Hts.
+    destruct Hts as (Hex & (rq & Hfc) & _ & _ & Hfcb & Hre & _).
+    unfold dp_retry_exhausted in Hex. apply Z.ltb_ge in Hex.
+    cbn [sends_entries sends_entry]. unfold req_fcbit. rewrite Hfc.
+    assert (Hle : (Z.of_nat (fst s) <=? p_max_retry pa) = true) by (apply Z.leb_le; lia).
+    rewrite Hle. cbn [andb].
+    assert (Hfe : match snd s with Some f0 => fcbit_eqb f0 (pe_fcb p) | None => true end = true).
+    { destruct (snd s) as [f0|] eqn:E; [|reflexivity]. rewrite (Hf f0 eq_refl). apply fcbit_eqb_refl. }
+    rewrite Hfe. eexists. split; [reflexivity|].
+    destruct (put_cur_facts m hd p p1 Hsl) as (_ & _ & Hpr & _).
+    split; [|split].
+    + apply retry_nonneg_slots with (m := put_cur m hd p1); [reflexivity|].
+      eapply retry_nonneg_put; try eassumption. specialize (Hnn _ _ Hsl). lia.
+    + intros i r' q Hpr' Hq. rewrite pos_rem_events in Hpr'. rewrite Hpr, Hr in Hpr'.
+      inversion Hpr'; subst i r'.
+      assert (Hq' : slot (put_cur m hd p1) (hd_index hd) = Some q) by exact Hq.
+      unfold put_cur in Hq'. rewrite (slot_put_same _ _ p1 _ Hsl) in Hq'. inversion Hq'; subst q.
+      cbn [fst snd]. split; [lia|]. intros f E. inversion E; subst. exact Hfcb.
+    + intro E. rewrite pos_rem_events in E. rewrite Hpr, Hr in E. discriminate E.
+  - destruct (cur_slot _ _ _ _ Hc Hg) as (r & Hr & Hsl & _).
+    destruct (put_cur_facts m hd p p1 Hsl) as (_ & Hcy & Hpr & _). rewrite Hc in Hcy. rewrite Hr in Hpr.
+    destruct (increment_pos _ _ _ _ _ _ Hcy Hpr Hi) as (Hsl2 & _).
+    cbn [sends_entries sends_entry]. eexists. split; [reflexivity|]. apply sends_inv_reset.
+    apply retry_nonneg_slots with (m := put_cur m hd p1); [cbn; exact Hsl2|].
+    eapply retry_nonneg_put; try eassumption.
+    pose proof (transmit_spec _ _ _ _ _ Hp) as Hts. cbn beta iota in Hts.
+    destruct ev; [destruct Hts as (_ & _ & _ & _ & ->)|destruct Hts as (_ & -> & _)]; lia.
+  - destruct (cur_slot _ _ _ _ Hc Hg) as (r & Hr & Hsl & _).
+    destruct (put_cur_facts m hd p p1 Hsl) as (_ & Hcy & Hpr & _). rewrite Hc in Hcy. rewrite Hr in Hpr.
+    destruct (increment_pos _ _ _ _ _ _ Hcy Hpr Hi) as (Hsl2 & _).
+    cbn [sends_entries sends_entry]. eexists. split; [reflexivity|]. apply sends_inv_reset.
+    apply retry_nonneg_slots with (m := put_cur m hd p1); [cbn; exact Hsl2|].
+    eapply retry_nonneg_put; try eassumption.
+    pose proof (transmit_spec _ _ _ _ _ Hp) as Hts. cbn beta iota in Hts.
+    destruct Hts as (_ & _ & _ & _ & ->). lia.
+  - destruct (cur_slot _ _ _ _ Hc Hg) as (r & Hr & Hsl & _).
+    destruct (put_cur_facts m hd p p1 Hsl) as (_ & Hcy & Hpr & _). rewrite Hc in Hcy. rewrite Hr in Hpr.
+    destruct (increment_pos _ _ _ _ _ _ Hcy Hpr Hi) as (Hsl2 & _).
+    cbn [sends_entries sends_entry]. apply IH. apply sends_inv_reset.
+    apply retry_nonneg_slots with (m := put_cur m hd p1); [exact Hsl2|].
+    eapply retry_nonneg_put; try eassumption.
+    pose proof (transmit_spec _ _ _ _ _ Hp) as Hts. cbn beta iota in Hts.
+    destruct Hts as (_ & -> & _). lia.
+Qed.
+
+Lemma sends_inv_events : forall m s e, sends_inv m s -> sends_inv (set_events m e) s.
+Proof. intros m s e H. exact H. Qed.
+
+Lemma sends_inv_take : forall auto c m s, sends_inv m s -> sends_inv (fst (auto_take_m auto c m)) s.
+Proof. intros auto c m s H. unfold auto_take_m. destruct (auto && is_bus c); exact H. Qed.
+
+Lemma sends_inv_user : forall m m1 s, user_upd m m1 -> sends_inv m s -> sends_inv m1 s.
+Proof.
+  intros m m1 s Hu (Hnn & Hhead & Hnil). pose proof (user_upd_mask _ _ Hu) as (Hmk & Hcy & _).
+  destruct Hu as (i & p & p' & Hs & -> & (_ & _ & Hre & Hfc & _)).
+  assert (Hpr : pos_rem (set_slots m (put_slot (dm_slots m) i p')) = pos_rem m)
+    by (apply pos_rem_mask; assumption).
+  split; [|split].
+  - eapply retry_nonneg_put; try eassumption. rewrite Hre. apply (Hnn _ _ Hs).
+  - intros j r q Hprj Hq. rewrite Hpr in Hprj. destruct (Nat.eq_dec i j) as [<-|Hne].
+    + rewrite (slot_put_same _ _ p' _ Hs) in Hq. inversion Hq; subst q. rewrite Hre, Hfc.
+      apply (Hhead _ _ _ Hprj Hs).
+    + rewrite slot_put_other in Hq by exact Hne. apply (Hhead _ _ _ Hprj Hq).
+  - intro E. rewrite Hpr in E. apply Hnil. exact E.
+Qed.
+
+Lemma sends_step : forall auto pa bufsize m s c x log,
+  sends_inv m s -> cstep_g pa bufsize m c = Ok (x, log) ->
+  exists s', sends_item (p_max_retry pa) s (mk_item auto m c x log) = Some s' /\
+             sends_inv (it_m (mk_item auto m c x log)) s'.
+Proof.
+  intros auto pa bufsize m s c x log HI H. unfold sends_item, mk_item. cbn [it_log it_m].
+  destruct c as [now hp|a t|a| |h|h q|st].
+  - destruct (cstep_tx _ _ _ _ _ _ _ H) as (o & _ & Hg).
+    destruct (dp_transmit_g_cases _ _ _ _ _ _ _ _ Hg) as
+      [(_ & Hm & _ & ->)|[(_ & _ & _ & Hm & -> & _)|(_ & _ & Hrel)]].
+    + exists s. split; [reflexivity|]. apply sends_inv_take. rewrite Hm. exact HI.
+    + exists s. split; [reflexivity|]. apply sends_inv_take. rewrite Hm. exact HI.
+    + destruct (tx_rel_sends _ _ _ _ _ _ Hrel s HI) as (s' & Hs & HI'). exists s'. split; [exact Hs|].
+      apply sends_inv_take. exact HI'.
+  - destruct (cstep_rx _ _ _ _ _ _ _ H) as (_ & Hg).
+    destruct (rx_cases _ _ _ _ _ Hg) as (index & hd & p & p1 & ev & m2 & cc & Hc & Hgi & _ & Hrx & Hi & Hm & ->).
+    destruct (cur_slot _ _ _ _ Hc Hgi) as (r & Hr & Hsl & _).
+    destruct (put_cur_facts m hd p p1 Hsl) as (_ & Hcy & Hpr & _). rewrite Hc in Hcy. rewrite Hr in Hpr.
+    destruct (increment_pos _ _ _ _ _ _ Hcy Hpr Hi) as (Hsl2 & _).
+    cbn [sends_entries sends_entry]. eexists. split; [reflexivity|]. apply sends_inv_take. rewrite Hm.
+    apply sends_inv_reset. destruct HI as (Hnn & _).
+    apply retry_nonneg_slots with (m := put_cur m hd p1); [cbn; exact Hsl2|].
+    eapply retry_nonneg_put; try eassumption.
+    destruct (fcb_after_reply _ _ _ _ Hrx) as [[_ ->]|[_ ->]]; [apply (Hnn _ _ Hsl)|lia].
+  - destruct (other_cases_exact _ _ _ _ _ _ H) as (-> & -> & _).
+    exists s. split; [reflexivity|]. apply sends_inv_take. exact HI.
+  - destruct (other_cases_exact _ _ _ _ _ _ H) as (-> & -> & _).
+    exists s. split; [reflexivity|]. apply sends_inv_take. exact HI.
+  - destruct (other_cases_exact _ _ _ _ _ _ H) as (-> & Hu & _).
+    exists s. split; [reflexivity|]. apply sends_inv_take. eapply sends_inv_user; eassumption.
+  - destruct (other_cases_exact _ _ _ _ _ _ H) as (-> & Hu & _).
+    exists s. split; [reflexivity|]. apply sends_inv_take. eapply sends_inv_user; eassumption.
+  - destruct (other_cases_exact _ _ _ _ _ _ H) as (-> & -> & _).
+    exists s. split; [reflexivity|]. apply sends_inv_take. exact HI.
+Qed.
+
+Theorem turn_sends_history : forall auto pa bufsize m0 cbs tr,
+  (forall i p, slot m0 i = Some p -> pe_retry p = 0) ->
+  run_g auto pa bufsize m0 cbs = Ok tr ->
+  accepts (nat * option fcbit) sends_inv (sends_item (p_max_retry pa)) (0%nat, None) m0 tr.
+Proof.
+  intros auto pa bufsize m0 cbs tr H0 H.
+  eapply (lift auto pa bufsize); [| |exact H].
+  - intros m s c x log HI Hc. eapply sends_step; eassumption.
+  - apply sends_inv_reset. intros i p Hs. rewrite (H0 _ _ Hs). lia.
 Qed.
